@@ -43,6 +43,9 @@ def run(ctx):
     check_resume(ctx)
     check_bounds(ctx)
     check_accessors(ctx)
+    from .. import rules_base as RB
+    ctx.rule('R3.B', 'base model: token-type containment, token flags, Token.match, imt and the navigation helpers behave as the rules assume (source interpreted on a finite matrix)', floor=1)
+    RB.check_base_model(ctx, 'R3.B', parts=('contains', 'flags', 'match', 'imt', 'nav'))
 
 
 def check_retyping(ctx, stores):
